@@ -5,13 +5,15 @@ VERIF = os.path.dirname(os.path.dirname(os.path.abspath(__file__)))
 sys.path.insert(0, VERIF); sys.path.insert(0, os.environ.get("XKNX_SRC", "/repo"))
 props = [json.loads(l) for l in open(os.path.join(VERIF, "properties.jsonl"))]
 checks, na = [], []
+cf = os.path.join(VERIF, "tools", "claimed.txt")
+CLAIMED = set(open(cf).read().split()) if os.path.exists(cf) else None
 PY = "PYTHONHASHSEED=0 /venv/bin/python -m vlib.run"
 hook_commits = [l.split()[0] for l in subprocess.run(["git", "-C", "/repo", "log", "--format=%h %s"], capture_output=True, text=True).stdout.splitlines() if " verif-hook:" in l]
 engines = {}
 for p in props:
     pid = p["id"]
     path = os.path.join(VERIF, "checks", pid.lower() + ".py")
-    if not os.path.exists(path):
+    if not os.path.exists(path) or (CLAIMED is not None and pid not in CLAIMED):
         na.append({"property_id": pid, "reason": "check not built yet in this session (planned in DESIGN.md section 4); not claimed until it passes the section 3.6 gate"})
         continue
     m = importlib.import_module("checks." + pid.lower())
